@@ -47,7 +47,7 @@ Definition clause_loop_reported (c : case) : bool :=
 Definition clause_no_false_loop (c : case) : bool :=
   match reference c with
   | RefLoop _ _ => true
-  | RefFuel => true
+  | RefFuel => false        (* never happens: the reference stack holds a file once *)
   | _ => negb (impl_is_loop c)
   end.
 
